@@ -54,6 +54,8 @@ def make_jobs(ctx):
                    "wasmMemoryAtomicWait.0:%d,wasmMemoryAtomicWait.1:%d" % ((6, 6) if ctx.tier == "thorough" else (4, 4))]),
     ]
     jobs += g_probes(ctx)
+    jobs.append(Job("R.cond_relative_wait", os.path.join(H, "c17_cond.c"), entry="h_cond_relative_wait", includes=inc, defines=D, funcs=["w2c2_base.h:wasmCondRelativeWait"], replay=rp, solver="z3",
+                    info=dict(layer="R", note="clock_gettime and pthread_cond_timedwait are recorders; every current time, every timeout 0..4*10^18 ns")))
     return jobs
 
 
